@@ -66,8 +66,10 @@ def c01(tier, replay):
     run.cov["bfs_chain_events"] = summ.get("bfs_events", 0)
     run.cov["family_chain_events"] = summ.get("family_events", 0)
     R.need(totals, ["gen", "castle", "ep", "promo", "incheck"])
+    R.family_direction_a(run, "C01", ("moveset", "moveset-after"), {"castle": 4, "ep": 40, "promo": 6, "rookcap": 3} if q else {"castle": 1, "ep": 2, "promo": 1, "rookcap": 1},
+                         fams=("castle", "ep", "promo", "rookcap"))
     model_game(run, tier)
-    run.cov["rule"] = RULE_TEXT % n_seeds() + "; compared: descriptor set = Chess!Legal both ways, multiplicity"
+    run.cov["rule"] = RULE_TEXT % n_seeds() + "; direction spec->code: TLC-enumerated castling / en-passant / promotion families replayed into the real generator; compared: descriptor set = Chess!Legal both ways, multiplicity"
     return run.finish()
 
 
@@ -97,11 +99,12 @@ def c04(tier, replay):
         else:
             R.replay_walk(run, "C04", replay)
         return run.finish()
-    n = 200 if tier == "quick" else 2000
+    n = 120 if tier == "quick" else 2000
     totals, _ = R.rules_trace(run, "C04", ["--playouts", n, "--plies", 40, "--text", 1, "--pos", 1, "--repeat-bias", 0.2], "playout")
     R.need(totals, ["gen", "castle", "ep", "promo", "pos"])
+    R.games_direction_a(run, "C04", ("text-apply", "text-apply-panic", "position-final", "position-panic"), 25 if tier == "quick" else 300)
     model_game(run, tier)
-    run.cov["rule"] = RULE_TEXT % n_seeds() + ("; every generated successor's printed text is replayed through uci::make_move and "
+    run.cov["rule"] = RULE_TEXT % n_seeds() + ("; direction spec->code: games simulated by TLC from Chess.tla replayed through make_move / play_out_position at every prefix; every generated successor's printed text is replayed through uci::make_move and "
                                                "compared with Chess!Apply and with the generator's successor (key included); whole games "
                                                "through play_out_position compared at every prefix")
     return run.finish()
@@ -170,6 +173,7 @@ def c06(tier, replay):
     t2, _ = R.rules_trace(run, "C06", ["--playouts", 120 if tier == "quick" else 1000, "--plies", 40], "playout")
     R.need(t2, ["gen", "incheck"])
     R.need(totals, ["chk"])
+    R.family_direction_a(run, "C06", ("check",), {"castle": 8, "ep": 80, "promo": 12} if tier == "quick" else {"castle": 1, "ep": 4, "promo": 1})
     run.cov["rule"] = ("families enumerated by the harness: (A) king on every square x enemy Q/R/B/N/P on every other square, both "
                        "colours; (B) the same with one blocker (own pawn, enemy pawn, enemy knight) on every square strictly between; "
                        "(C) both kings on every ordered pair of squares; (D) random placements with up to 24 extra men; quick = every "
@@ -185,6 +189,7 @@ def c13(tier, replay):
     n = 160 if tier == "quick" else 1500
     totals, _ = R.rules_trace(run, "C13", ["--playouts", n, "--plies", 40, "--caps-prob", 0.6, "--caps-budget", 16], "capschains")
     R.need(totals, ["gen", "ep", "promo"])
+    R.family_direction_a(run, "C13", ("caps",), {"castle": 8, "ep": 40, "promo": 6} if tier == "quick" else {"castle": 1, "ep": 2, "promo": 1})
     model_game(run, tier)
     run.cov["rule"] = RULE_TEXT % n_seeds() + ("; at 60% of the visited positions a depth-first walk over capture-only generations (depth <= 6, "
                                                "<= 3 branches per node, as quiescence follows them) is logged; per event: descriptor set = Chess!LegalCaptures, "
